@@ -73,8 +73,8 @@ def consume(ctx, out, label):
     witnesses = {}
     for l in out.split("\n"):
         p = l.split(" ")
-        if p[0] in ("pair", "conc"):
-            if p[0] == "pair":
+        if p[0] in ("pair", "conc", "cpair"):
+            if p[0] in ("pair", "cpair"):
                 a, b, sched, res, nt = p[1:6]
             else:
                 a, b, res, nt = p[1:5]
@@ -82,7 +82,8 @@ def consume(ctx, out, label):
             ctx.case("%s %s %s %s" % (label, a, b, sched), nt == "1")
             ctx.count(label + ":" + res)
         elif p[0] == "witness":
-            key, which, idx, want, got, sched = p[1:7]
+            key, which, idx, want, got = p[1:6]
+            sched = " ".join(p[6:])
             witnesses.setdefault(key, (which, idx, want, got, sched))
     for key, (which, idx, want, got, sched) in sorted(witnesses.items()):
         try:
@@ -90,6 +91,14 @@ def consume(ctx, out, label):
         except ValueError:
             w, g = want, got
         frs = key.split(":")[-1]
+        if key.startswith("cfg:"):
+            ca, cb = key.split(":")[1].split("|")
+            ctx.violation("interfere:" + key,
+                          "a runtime created as '%s' and a runtime created as '%s' in one process: program %s (fragment %s) no longer computes what it "
+                          "computes alone in a runtime created the same way (statement %s: alone %s, together %s; %s)"
+                          % (ca, cb, which, frs, idx, w, g, sched),
+                          "c20 config %s %s %s\nprogram %s statement %s: solo %s, with the other runtime %s\n" % (ca, cb, sched.split(" ")[0], which, idx, w, g))
+            continue
         ctx.violation("interfere:" + key,
                       "running %s in another runtime of the same process changes what program %s computes (statement %s: alone %s, together %s; schedule %s)"
                       % (frs, which, idx, w, g, sched),
@@ -104,7 +113,9 @@ def run(ctx):
     ctx.rule = ("cases = (program A, program B, schedule): both run alone, then interleaved statement by statement in two runtimes of one "
                 "process (and concurrently on two goroutines), traces compared with the solo runs; non-trivial = A and B touch the same kind "
                 "of library state (globals, string metatable, package.loaded, random generator, collector, io defaults, quotas...) and at "
-                "least one of them writes it; distinct by canonical text")
+                "least one of them writes it, or (config cases) the two runtimes are created in different ways (RuntimeOptions quotas/flags/"
+                "pool sizes, own warner and stdout, a subset of the libraries, another load order), one created and closed before the other "
+                "exists or both alive; solo baselines come from clean child processes; distinct by canonical text")
     ctx.assumptions += [
         "the package-level-variable analysis follows stores, map updates, delete/append, pointer-receiver method calls and pointers passed "
         "down into callees (context-insensitive taint with carriers); it does not follow pointers returned through more than one accessor",
@@ -126,6 +137,11 @@ def run(ctx):
     if rc != 0:
         raise common.BuildError("c20 harness (concurrent) failed: " + err[-2000:])
     consume(ctx, out, "concurrent")
+    # runtimes created in different ways (options, warner, library subsets / load order), each ordered pair in its own process
+    rc, out, err = common.run_harness(h, ["config", ctx.tier], timeout=3000)
+    if rc != 0:
+        raise common.BuildError("c20 harness (config) failed: " + err[-2000:])
+    consume(ctx, out, "config")
     if ctx.tier == "thorough":
         hr = common.build_go("c20race", "cmd/c20", race=True)
         for procs in ("2", "8"):
@@ -134,6 +150,12 @@ def run(ctx):
             if rc != 0:
                 raise common.BuildError("c20 race harness failed: " + err[-2000:])
             consume(ctx, out, "race" + procs)
+            rc, out2, err2 = common.run_harness(hr, ["config", "race"], timeout=3000,
+                                                env={"GORACE": "halt_on_error=0 exitcode=0", "GOMAXPROCS": procs})
+            if rc != 0:
+                raise common.BuildError("c20 race harness (config) failed: " + err2[-2000:])
+            consume(ctx, out2, "race-config" + procs)
+            err = err + "\n" + err2
             for k, blk in sorted(race_keys(err).items()):
                 ctx.count("race-report")
                 ctx.violation(k, "the race detector reports a data race between two runtimes used from two goroutines",
@@ -157,6 +179,11 @@ def replay(ctx, path):
         return 0
     h = common.build_go("c20", "cmd/c20")
     for line in txt.splitlines():
+        if line.startswith("c20 config "):
+            p = line.split(" ")
+            rc, out, err = common.run_harness(h, ["cfgcase", p[2], p[3], p[4], "quota,strmeta,globals,pkg,iodefault,output,heavy+flagsctx"])
+            print("raw traces of the pair (ta = runtime A, tb = runtime B) in a clean process:")
+            print(out)
         if line.startswith("c20 replay "):
             p = line.split(" ")
             if len(p) >= 4:
